@@ -140,7 +140,11 @@ func loadUniverse() (*Universe, error) {
 			return nil, err
 		}
 	}
-	specs, _ := filepath.Glob(filepath.Join(verifDir(), "spec", "*.fvs"))
+	specDir := filepath.Join(verifDir(), "spec")
+	if d := os.Getenv("FVC_SPEC"); d != "" {
+		specDir = d
+	}
+	specs, _ := filepath.Glob(filepath.Join(specDir, "*.fvs"))
 	sort.Strings(specs)
 	for _, sp := range specs {
 		sf, err := loadSpecFile(sp)
